@@ -239,7 +239,7 @@ def levelTag (k : Kind) : String := if k.isStoryLevel then "story" else "item"
 /-- domain of C01 (story-level) and C02 (item-level): well-formed running order, unique IDs in the
     edited container, schema-shaped message, references resolve -/
 def DomOrder (i : MergeInput) : Bool :=
-  WfRO i.d && TimingOk i.d && shaped i.k i.m && (i.k.isStoryLevel || i.k.isItemLevel) &&
+  WfRO i.d && !completed i.d && TimingOk i.d && shaped i.k i.m && (i.k.isStoryLevel || i.k.isItemLevel) &&
   match i.m.find i.k.baseTag with
   | none => false
   | some base =>
